@@ -47,7 +47,7 @@ def flat_query_job(query, tier, timeout_ms=300000):
     fn = getattr(importlib.import_module(modname), fname)
     t0 = time.time()
     name = "C13/%s(parent, patterns)" % fname
-    prof = dict(M.PROFILES["quick" if tier == "quick" else "thorough_heavy"])
+    prof = dict(M.PROFILES["quick" if tier == "quick" else "thorough"])
     u = Universe(prof["live"], {}, prof["K"], keys=(".NAME",), atoms=NAMES + PATTERNS)
     pre = Heap.symbolic(u, "s")
     heap = pre.copy()
